@@ -5,7 +5,7 @@ set -e
 PATCH=$1; TAG=$2; shift 2
 D=/var/tmp/seedrepo/$TAG
 rm -rf $D; mkdir -p $D
-rsync -a --exclude target --exclude .git /repo/ $D/
+rsync -a --exclude target --exclude .git ${VERIF_SEED_SRC:-/repo}/ $D/
 (cd $D && git apply --unsafe-paths $PATCH 2>/dev/null || patch -p1 -s < $PATCH)
 for c in "$@"; do
   VERIF_REPO=$D VERIF_EVIDENCE_DIR=/var/tmp/seedrepo/ev-$TAG VERIF_REPLAY_DIR=/var/tmp/seedrepo/rp-$TAG VERIF_SCRATCH=/var/tmp/verif-scratch-$TAG /verif/check $c > /var/tmp/seedrepo/$TAG-$c.log 2>&1 || true
